@@ -26,6 +26,8 @@ mod kern;
 mod plat;
 mod run;
 mod xcheck;
+#[cfg(feature = "std")]
+mod xt;
 
 use run::Args;
 
@@ -51,6 +53,8 @@ fn main() {
         #[cfg(feature = "std")]
         "c18" => (c18::run(&args), c18::RULE),
         "c09" => (c09::run(&args), c09::RULE),
+        #[cfg(feature = "std")]
+        "xt" => (xt::run(&args), xt::RULE),
         "kern" => (kern::run(&args), kern::RULE),
         "probes" => (kern::probes(&args), kern::RULE),
         "c10" => (c10::run(&args), c10::RULE),
